@@ -80,6 +80,10 @@ def readFrame (crc : List Nat → Nat) (b : Buf) : Res (Nat × Nat × Nat) :=
   (slice b 0 WAL_FRAME_HEADER_SIZE).bind fun h =>
   (ensure (decide (WAL_FRAME_HEADER_SIZE + PAGE_SIZE ≤ b.len)) "page-eof").bind fun _ =>
   (slice b WAL_FRAME_HEADER_SIZE (WAL_FRAME_HEADER_SIZE + PAGE_SIZE)).bind fun page =>
+  -- `validate_checksum` (after the zero-frame fix): a slot with checksum 0 and both salts 0 was
+  -- never written
+  (ensure (decide (¬ (le ((h.drop 24).take 8) = 0 ∧ le ((h.drop 16).take 4) = 0 ∧
+      le ((h.drop 20).take 4) = 0))) "checksum").bind fun _ =>
   (ensure (decide (crc (h.take 24 ++ page) = le ((h.drop 24).take 8))) "checksum").bind fun _ =>
   .ok (le (h.take 8), le ((h.drop 8).take 4), le ((h.drop 12).take 4))
 
